@@ -59,6 +59,17 @@ def gen_cases(tier, seed):
                 for a, sz in w:
                     h.call(callid, pre + [a, sz, 0, 0, 0, 0] + post, blobs, [])
                 yield h.case(5000, 'one memory location moved along / repeated')
+    # a call refused because a configured server format is not a format at all (2 where 16 bits were meant), then the configuration is
+    # corrected at run time and the SAME MemoryLocation object is used again: the request is the one of a fresh object
+    for callid, blobs, pre, post in ((17, [], [], []), (18, [b'\xaa'], [], []), (19, [], [0], [0, 0, 0]), (20, [], [0xF201, 2, 1], [])):
+        for bad_slot, bad, good_v, other_slot, other in ((cl.SRV_SIZE, 2, 16, cl.SRV_ADDR, 32), (cl.SRV_ADDR, 4, 32, cl.SRV_SIZE, 16), (cl.SRV_SIZE, 12, 8, cl.SRV_ADDR, -1)):
+            for ea in (None, 24):
+                cfgv = list(cl.DEFAULT_CFG)
+                cfgv[bad_slot], cfgv[other_slot] = bad, other
+                args = pre + argspace.setopt([0x1000, 4, 0, 0, 0, 0], 2, ea) + post
+                h = cl.H(cfgv).call(callid, args, blobs, []).set_cfg(bad_slot, good_v).call(callid, args, blobs, [])
+                h.call(callid, pre + argspace.setopt([0x123456, 0x104, 0, 0, 0, 0], 2, ea) + post, blobs, [])
+                yield h.case(5000, 'one memory location moved along after a refused format / repeated')
 
 
 def worker_init():
@@ -77,10 +88,18 @@ def oracle(c, r):
         return None
     if c.tag.startswith('one memory location moved along'):
         cfgv, ops = cl.case_ops(c)
-        calls = cl.parse_calls(r, len(ops))[0]
-        for i, (o, d) in enumerate(zip(ops, calls)):
+        cur = list(cfgv)
+        callops = [o for o in ops if o[0] == 'call']
+        calls = iter(cl.parse_calls(r, len(callops))[0])
+        i = -1
+        for o in ops:
+            if o[0] == 'set_cfg':
+                cur[o[1]] = o[2]
+                continue
+            d = next(calls)
+            i += 1
             _, callid, args, cb, reps = o
-            kind, val = isospec.expected(cfgv, callid, args, cb)
+            kind, val = isospec.expected(cur, callid, args, cb)
             sent = [e[1] for e in d['events'] if e[0] == 'S']
             if kind == 'send' and sent[:1] != [val]:
                 return ('moved-location-widths', 'call %d (address %#x, size %#x on the same MemoryLocation object) sent %r, a fresh object gives %s' % (
